@@ -649,3 +649,37 @@ mod tests {
         );
     }
 }
+
+/// Verification hooks (compiled only with `--cfg eigerco_lumina_verif`).
+#[cfg(eigerco_lumina_verif)]
+pub(crate) mod verif_hooks {
+    use super::*;
+
+    /// Make a disconnected peer look as if it had been disconnected `by` longer than it really
+    /// has (moves its `disconnected_at` into the past). Returns `false` for unknown or connected
+    /// peers (nothing to age) and when the clock cannot go back that far.
+    pub(crate) fn age_disconnected(tracker: &mut PeerTracker, peer_id: &PeerId, by: Duration) -> bool {
+        let Some(peer) = tracker.peers.get_mut(peer_id) else {
+            return false;
+        };
+        let Some(at) = peer.disconnected_at else {
+            return false;
+        };
+        match at.checked_sub(by) {
+            Some(earlier) => {
+                peer.disconnected_at = Some(earlier);
+                true
+            }
+            None => false,
+        }
+    }
+
+    /// Whether gc considers the peer's disconnection old enough to forget it.
+    pub(crate) fn is_expired(tracker: &PeerTracker, peer_id: &PeerId) -> bool {
+        tracker
+            .peers
+            .get(peer_id)
+            .and_then(|peer| peer.disconnected_at)
+            .is_some_and(|tm| tm.elapsed() > EXPIRED_AFTER)
+    }
+}
